@@ -54,7 +54,36 @@ fn fused_ok(p: &Prog) -> Result<bool, String> {
     r
 }
 
+/// does the program combine finite-domain / CLP(Z) propagation with a disjunction?  (Known finding D21: how far
+/// a domain is pruned before labelling depends on the hash-iteration order of the constraint store, the number of
+/// labelling alternatives with it, and so the ORDER in which the clauses' answers interleave.)
+pub fn fd_with_disjunction(p: &Prog) -> bool {
+    let l = p.line();
+    let fd = ["infd", "plusfd", "minusfd", "timesfd", "ltefd", "ltfd", "diseqfd", "distinctfd"].iter().any(|k| l.contains(k));
+    let dj = ["conde", "disj", "conda", "condu", "anyo"].iter().any(|k| l.contains(k));
+    fd && dj
+}
+
+fn same_multiset(a: &str, b: &str) -> bool {
+    let (mut x, mut y): (Vec<&str>, Vec<&str>) = (a.split(" || ").collect(), b.split(" || ").collect());
+    x.sort();
+    y.sort();
+    x == y
+}
+
+/// tag of the last evaluated case ("-" or the known-finding class it falls in)
+thread_local! { pub static LAST_TAG: std::cell::RefCell<String> = std::cell::RefCell::new("-".into()); }
+
 pub fn eval(p: &Prog, finite: bool) -> (String, Option<String>, bool, u64) {
+    LAST_TAG.with(|t| *t.borrow_mut() = "-".into());
+    let unstable_order = |other: &str, line: &str| -> bool {
+        // the same answers in another order, on a program of the known class
+        let k = fd_with_disjunction(p) && same_multiset(other, line);
+        if k {
+            LAST_TAG.with(|t| *t.borrow_mut() = "KF:C09-fd-disj-order".into());
+        }
+        k
+    };
     proto_vulcan::verif::set_permutation(0);
     let big = 3_000_000;
     let out = run_prog_b(p, if finite { big } else { BUDGET });
@@ -67,6 +96,7 @@ pub fn eval(p: &Prog, finite: bool) -> (String, Option<String>, bool, u64) {
     // (a) again in this process
     let again = show_run(&run_prog_b(p, if finite { big } else { BUDGET }), false);
     if again != line {
+        let _ = unstable_order(&again, &line);
         fail = Some(format!("a second run of the same query in the same process gave a different answer sequence: {}", again));
     }
     // (b) forced iteration orders
@@ -78,6 +108,7 @@ pub fn eval(p: &Prog, finite: bool) -> (String, Option<String>, bool, u64) {
         let l = show_run(&run_prog_b(p, if finite { big } else { BUDGET }), false);
         proto_vulcan::verif::set_permutation(0);
         if l != line {
+            let _ = unstable_order(&l, &line);
             fail = Some(format!("iteration order {} of the constraint store changed the answer sequence: {}", perm, l));
         }
     }
@@ -107,7 +138,12 @@ pub fn eval(p: &Prog, finite: bool) -> (String, Option<String>, bool, u64) {
 
 fn record(p: &Prog, finite: bool, out: &mut Out) {
     let (line, fail, nt, fuel) = eval(p, finite);
-    out.push(p.line_f(fuel), line, fail, nt);
+    let tag = LAST_TAG.with(|t| t.borrow().clone());
+    if tag != "-" && fail.is_some() {
+        out.push_tagged(&tag, p.line_f(fuel), line, fail, nt);
+    } else {
+        out.push(p.line_f(fuel), line, fail, nt);
+    }
 }
 
 pub fn replay(line: &str, out: &mut Out) {
@@ -124,6 +160,9 @@ fn corpus() -> Vec<&'static str> {
         "prog 1 1 6 - loop 1 1 conde 3 1 eq i1 v0 1 eq i2 v0 1 eq i3 v0",
         "prog 3 3 5 - call append 3 v0 v1 v2",
         "prog 2 2 0 - infd v0 I 0 3 infd v1 I 0 3 ltfd v0 v1",
+        // D21 (known finding): finite-domain propagation under a disjunction — the answers come in a hash-order
+        // dependent ORDER (found by the thorough tier of C04 as a model/implementation sequence difference)
+        "prog 3 3 0 - infd v2 V 5 0 -4 -1 0 3 plusfd v2 v1 v0 infd v0 I -3 2 infd v1 I 0 3 conde 2 2 plusfd v0 v0 v2 ltefd v1 v1 1 timesfd v1 v1 v1",
         // a simplified disequality subsumes a stored one in the middle of a pass; a third one is violated (C09-b)
         "prog 6 6 0 - neq cons v0 cons v1 nil cons i7 cons i2 nil neq cons v1 cons v2 nil cons i2 cons i3 nil neq v3 v4 eq cons v3 cons v0 nil cons v4 cons i7 nil",
     ]
